@@ -280,7 +280,10 @@ def work_finders(a, b, tier, seed, res):
     fam = family(tier)
     conn = [i for i, (inp, o) in enumerate(fam)
             if connected(inp) and len(inp) >= 3]
+    prev = None
     for idx in conn[a:b]:
+        if idx != conn[a]:
+            prev = (inputs, output, sd)
         inputs, output = fam[idx]
         n = len(inputs)
         inds = U.used_inds(inputs)
@@ -302,12 +305,12 @@ def work_finders(a, b, tier, seed, res):
             try:
                 if kind == "GreedyCompressed":
                     k2 = dict(kw)
-                    tree = pcg.GreedyCompressed(k2.pop("chi"), seed=seed,
-                                                **k2).search(
-                        inputs, output, sd)
+                    finder = pcg.GreedyCompressed(k2.pop("chi"), seed=seed,
+                                                  **k2)
+                    tree = finder.search(inputs, output, sd)
                 elif kind == "GreedySpan":
-                    tree = pcg.GreedySpan(seed=seed, **kw).search(
-                        inputs, output, sd)
+                    finder = pcg.GreedySpan(seed=seed, **kw)
+                    tree = finder.search(inputs, output, sd)
                 else:
                     minimize = "peak-compressed-4" + (
                         "-late" if kw["late"] else "")
@@ -322,6 +325,27 @@ def work_finders(a, b, tier, seed, res):
                             parallel=False, optlib="random")
                     tree = opt.search(inputs, output, sd)
                 bad = check_ctree(tree, inputs, output, n)
+                if kind != "hyper" and not bad:
+                    # the same finder OBJECT asked again (same network, then
+                    # the previous network of the family): every answer is a
+                    # complete ordered tree of the network asked about
+                    again = [(inputs, output, sd)]
+                    if prev is not None:
+                        again.append(prev)
+                    for q in again:
+                        t2 = finder.search(*q)
+                        bad += [("reused-finder:" + str(b[0]),) + tuple(b[1:])
+                                for b in check_ctree(t2, q[0], q[1],
+                                                     len(q[0]))]
+                        p2 = finder(*q)
+                        nodes = list(range(len(q[0])))
+                        for con in p2:
+                            for c in sorted(con, reverse=True):
+                                nodes.pop(c)
+                            nodes.append(-1)
+                        if len(nodes) != 1:
+                            bad.append(("reused-finder:path-incomplete",
+                                        len(nodes)))
             except Exception as e:
                 import traceback
 
